@@ -50,6 +50,9 @@ pub fn generate(rng: &mut Rng, thorough: bool) -> Vec<String> {
         v.push(format!("w19_pdt_to_zdt {z} {ns} {}", rng.pick(&["compatible", "earlier", "later", "reject"])));
         v.push(format!("w19_inst_str {z} {ns}"));
         v.push(format!("w19_dur_rel {z} {ns} {du} {}", rng.pick(&["round", "total", "compare"])));
+        // durations without calendar units relative to a zoned date-time (day lengths depend on the zone)
+        let du_days = format!("0 0 0 {} {} {} 0 0 0 0", rng.range(0, 3), rng.range(0, 30), rng.range(0, 90));
+        v.push(format!("w19_dur_rel {z} {ns} {du_days} {}", rng.pick(&["round", "total", "total_hour", "compare"])));
         v.push(format!("w19_relto {z} {ns}"));
         // FFI slice
         v.push(format!("w19_capi_instant {ns}"));
@@ -177,6 +180,7 @@ pub fn eval(t: &[&str]) -> Option<String> {
                     cmp(du.round(mk(), rel()), du.round_with_provider(mk(), rel(), &p))
                 }
                 "total" => cmp(du.total(Unit::Day, rel()), du.total_with_provider(Unit::Day, rel(), &p)),
+                "total_hour" => cmp(du.total(Unit::Hour, rel()), du.total_with_provider(Unit::Hour, rel(), &p)),
                 _ => cmp(du.compare(&du.negated(), rel()), du.compare_with_provider(&du.negated(), rel(), &p)),
             }
         }
